@@ -297,10 +297,11 @@ impl<'r> Gen<'r> {
             "r#type", "self", "a,b,c", "a, b,", "é", "0x1ff", "0b1_0000_0000", "1_000", "300u8", "0x10", "-0x81", "+5", "[u8; 4]", "fn(u8) -> u8", "impl Clone", "_", "m!()", "!", "(u8)",
             "*const u8", "&'a str", "[u8]", "dyn Clone + Send", "(u8, u16)", "T: Clone", "[0x2]", "[0.5, 0x2]", "b'a'", "a + b; c",
         ];
-        const EXPRS: [&str; 48] = [
+        const EXPRS: [&str; 58] = [
             "[1, 2, 3]", "[\"a\", \"b\"]", "[1, \"a\"]", "[]", "[300, 1]", "[-1]", "[1u8, 2u64]", "a::b", "::a", "foo(1)", "1..2", "..", "(1)", "{ 1 }", "|x| x", "&x", "x as u8", "1 + 2",
             "-1", "-129", "!true", "a.b", "a[0]", "if a { 1 } else { 2 }", "Self", "self", "crate::x", "<T as U>::V", "b'a'", "b\"bytes\"", "r#\"raw\"#", "'a'", "'\\n'", "x!()", "0x10", "0xff_u8", "-0x10", "[0.5, 0x2]", "[b'a', b'b']", "['a', 'b']", "[true, false]", "1.5e3", "0o17", "|a| a + 1",
-            "path::to::f", "[b\"x\", b\"y\"]", "[1.0, 2]", "2",
+            "path::to::f", "[b\"x\", b\"y\"]", "[1.0, 2]", "2", "-128", "-32768", "-2147483648", "-9223372036854775808", "-170141183460469231731687303715884105728", "-127", "-1.5", "-0",
+            "-255", "-256",
         ];
         match self.rng.below(12) {
             0 => Form::Word,
